@@ -70,6 +70,12 @@ def guard_table(prog, res, q, spec, classes):
             if isinstance(k, str) and '[0]' in k:
                 for j in (1, 2):
                     model.setdefault(k.replace('[0]', '[%d]' % j), v)
+        # the points of a supplied frame carry pairwise different names (what they are is not part of these tables)
+        npts = model.get('arg0._points._points.size')
+        if isinstance(npts, int):
+            for j in range(npts):
+                model.setdefault('arg0._points._points[%d]._name' % j, 'n%d' % j)
+                model.setdefault('arg0._points.point(%d)._name' % j, 'n%d' % j)
         return model
     # quantities the guards read that the documented contract does not name: state atoms are
     # treated as free variables over a small domain (the guard must give the documented answer
@@ -215,12 +221,65 @@ def label_rule(prog, res):
                     not any(g0.vertex_of.get(m['id']) is not None and cv in g0.reach([g0.vertex_of[m['id']]]) for m in mut):
                 okl = True
     inst = 'frame: every POINT:LABELS entry must be present in the frame'
+    if not okl and not partial:
+        # not the usual shape: decide on finite models (0..2 declared labels x frames of 0..3 points named from
+        # {a, b, c}, every other precondition satisfied): refused with std::invalid_argument iff a label is missing
+        v, info = model_label_rule(prog, f0)
+        if v == 'ok':
+            res.ok('label-rule', inst, f0.loc(), 'not the usual loop; walked on %d finite models (labels x point names): refused with std::invalid_argument exactly when a declared label is missing from the frame' % info,
+                   function=f0.sig, expr='labels')
+            return
+        if v == 'violation':
+            res.viol('label-rule', inst, f0.loc(), info, function=f0.sig, expr='labels')
+            return
+        why = why + '; ' + str(info)
     if okl:
         res.ok('label-rule', inst, f0.loc(), 'loop over all labels, look-up failure -> std::invalid_argument, before the store', function=f0.sig, expr='labels')
     elif partial or not (mentions_with_refusal(f0, R0, 'parameter("LABELS")') or any(mentions_with_refusal(h, Renderer(h), 'parameter("LABELS")') for h, _, _ in helpers)):
         res.viol('label-rule', inst, f0.loc(), why + ('' if partial else ': nothing in the function tests the frame against POINT:LABELS and refuses'), function=f0.sig, expr='labels')
     else:
         res.undecided('label-rule', inst, f0.loc(), 'the labels are tested in a form the rule does not read (%s)' % why, function=f0.sig, expr='labels')
+
+
+def model_label_rule(prog, f0):
+    contract = load_contract()
+    spec = contract['functions']['ezc3d::c3d::frame']
+    LAB = 'this._parameters.group("POINT").parameter("LABELS").valuesAsString()'
+    PTS = 'arg0._points._points'
+
+    def stop(n):
+        return n['k'] == 'CXXMemberCallExpr' and n['callee']['qname'] == spec['accept_stop']
+    n = 0
+    for L in ([], ['a'], ['a', 'b'], ['b', 'a']):
+        for k in range(0, 4):
+            for N in itertools.product('abc', repeat=k):
+                env = {'used': len(N), 'fp': len(N), 'prate': 100.0, 'nsub': 0, 'arate': 0.5, 'aused': 0, 'nch': 0, 'abf': 0, 'nlabels': len(L)}
+                model = {spec['atoms'][a]['path']: v for a, v in env.items() if a in spec['atoms']}
+                model[LAB + '.size'] = len(L)
+                for i, x in enumerate(L):
+                    model['%s[%d]' % (LAB, i)] = x
+                model[PTS + '.size'] = len(N)
+                for i, x in enumerate(N):
+                    model['%s[%d]._name' % (PTS, i)] = x
+                    model['arg0._points.point(%d)._name' % i] = x
+                model['#alias'] = {'point': '_points'}
+                try:
+                    events, end, undec = a7.walk(f0, model, stop=stop, follow_loops=True, max_steps=4000)
+                except a7.OutOfRange as e:
+                    return 'undecided', 'the walk indexes outside a modelled container (%s)' % (e,)
+                n += 1
+                if end.startswith('undecided') or end == 'loop':
+                    what = ''
+                    if undec:
+                        what = ': ' + ', '.join(sorted(str(a_)[:100] for _, u_ in undec for a_ in u_))[:300]
+                    return 'undecided', 'the label test cannot be evaluated on finite models%s' % what
+                missing = [x for x in L if x not in N]
+                got = end.split('@')[0]
+                if missing and got != 'throw:std::invalid_argument':
+                    return 'violation', 'with POINT:LABELS = %s and a frame whose points are named %s (label %s missing) the call ends in %s; documented: refused with std::invalid_argument' % (L, list(N), missing[0], got)
+                if not missing and not end.startswith('stop@'):
+                    return 'violation', 'with POINT:LABELS = %s and a frame whose points are named %s (every label present) the call ends in %s; documented: accepted' % (L, list(N), got)
+    return 'ok', n
 
 
 def mentions_with_refusal(f, R, text):
@@ -234,8 +293,14 @@ def mentions_with_refusal(f, R, text):
 
 
 def _mentions_with_refusal(f, R, text):
+    # in a checker that reports a reason instead of throwing, handing back the reason is the refusal
+    try:
+        import validators
+        refuse_k = ('CXXThrowExpr', 'ReturnStmt') if validators.reason_summary(f.prog, f.usr) else ('CXXThrowExpr',)
+    except Exception:
+        refuse_k = ('CXXThrowExpr',)
     for n in f.all_nodes({'IfStmt'}):
-        if text in R.render(n['cond']) and any(f.nodes[x]['k'] == 'CXXThrowExpr' for x in f.descendants(n['then']) + (f.descendants(n['else']) if 'else' in n else [])):
+        if text in R.render(n['cond']) and any(f.nodes[x]['k'] in refuse_k for x in f.descendants(n['then']) + (f.descendants(n['else']) if 'else' in n else [])):
             return True
     for t in f.all_nodes({'CXXTryStmt'}):
         body = ' '.join(R.render(x) for x in f.descendants(t['body']) if f.nodes[x]['k'] in ('CXXMemberCallExpr', 'CallExpr', 'CXXOperatorCallExpr'))
@@ -341,24 +406,47 @@ def duplicate_rule(prog, res, q, ptype0, group, name_re):
                         why = 'std::find_first_of over two lists: whether the second list holds every new name is not read by the rule'
     if ok:
         res.ok('duplicate-rule', inst, f.loc(), 'every new name x every %s:LABELS entry compared for equality -> std::invalid_argument' % group, function=f.sig, expr='duplicate')
-    elif partial or not mentions_with_refusal(f, R, 'parameter("LABELS")'):
+    elif partial or not (mentions_with_refusal(f, R, 'parameter("LABELS")') or any(mentions_with_refusal(h, Renderer(h), 'parameter("LABELS")') for h, _, _ in _internal_helpers(prog, f, R))):
         res.viol('duplicate-rule', inst, f.loc(), why + ('' if partial else ': nothing in the function tests the new names against %s:LABELS and refuses' % group), function=f.sig, expr='duplicate')
     else:
         res.undecided('duplicate-rule', inst, f.loc(), 'the new names are tested against the labels in a form the rule does not read (%s)' % why, function=f.sig, expr='duplicate')
 
 
 def lock_rule(prog, res):
+    from codec import substitute
     for q in ('ezc3d::c3d::lockGroup', 'ezc3d::c3d::unlockGroup'):
         f = prog.fn(q, nparams=1)
         R = Renderer(f)
-        calls = [n for n in f.calls() if n['callee'].get('inrepo')]
-        names = [n['callee']['qname'].split('::')[-1] for n in calls]
-        byname = [n for n in calls if n['callee']['name'] == 'group_nonConst' and n['callee']['ptypes'] and 'basic_string' in n['callee']['ptypes'][0]]
-        trys = list(f.all_nodes({'CXXTryStmt'}))
-        if len(byname) == 1 and R.render(byname[0]['args'][0]) == 'arg0' and not trys and ('lock' if 'unlock' not in q else 'unlock') in names and len(calls) == 2:
-            res.ok('guard-table', '%s: unknown group' % f.name, f.loc(), 'group looked up by name (std::invalid_argument from the name search, C11), nothing swallowed', function=f.sig, expr='unknown-group')
+        fam = [(f, {'arg0': 'arg0'}, None)] + _internal_helpers(prog, f, R)
+        lookups, trys, toggles, other = [], [], [], []
+        for g, sub, cn in fam:
+            Rg = Renderer(g)
+            trys += list(g.all_nodes({'CXXTryStmt'}))
+            for n in g.calls():
+                if not n['callee'].get('inrepo'):
+                    continue
+                nm = n['callee']['name']
+                if nm == 'group_nonConst' and n['callee']['ptypes'] and 'basic_string' in n['callee']['ptypes'][0]:
+                    a = Rg.render(n['args'][0])
+                    lookups.append(substitute(a, sub) if sub else a)
+                elif nm in ('lock', 'unlock'):
+                    toggles.append(nm)
+                elif any(n['callee'].get('usr') == h.usr for h, _, _ in fam):
+                    pass
+                else:
+                    other.append(nm)
+        want = 'lock' if 'unlock' not in q else 'unlock'
+        inst = '%s: unknown group' % f.name
+        if len(lookups) == 1 and lookups[0] == 'arg0' and not trys and want in toggles and not other:
+            res.ok('guard-table', inst, f.loc(), 'group looked up by name (std::invalid_argument from the name search, C11), nothing swallowed', function=f.sig, expr='unknown-group')
+        elif trys and lookups:
+            res.viol('guard-table', inst, f.loc(), 'the by-name look-up of the group sits in a function with a handler: an unknown group may not surface as std::invalid_argument', function=f.sig, expr='unknown-group')
+        elif not lookups and not other:
+            res.viol('guard-table', inst, f.loc(), 'the group is not looked up by the caller\'s name through the checked accessor (calls: %s)' % toggles, function=f.sig, expr='unknown-group')
+        elif lookups and lookups[0] != 'arg0' and len(lookups) == 1 and not other:
+            res.viol('guard-table', inst, f.loc(), 'the group is looked up as %s, not by the caller\'s name' % lookups[0], function=f.sig, expr='unknown-group')
         else:
-            res.viol('guard-table', '%s: unknown group' % f.name, f.loc(), 'the group is not looked up by the caller\'s name through the checked accessor (calls: %s)' % names, function=f.sig, expr='unknown-group')
+            res.undecided('guard-table', inst, f.loc(), 'the group is reached through %s, a form the rule does not read [shape not read by the rule]' % sorted(set(other) or set(lookups)), function=f.sig, expr='unknown-group')
 
 
 def binding_rule(prog, res, contract):
